@@ -65,6 +65,13 @@ def check_cluster(lst, acc):
         found.append(('cluster-exception', '%s: %s' % (type(e).__name__, e), 'cluster_indels', sig))
     if out is not None:
         found += [(s, 'calls=%s | %s' % (lst, d), 'cluster_indels', sig) for s, d in conservation_problems(snap, out, n)]
+        # the caller's list once more (e.g. with another blur): the calls are still the calls
+        try:
+            out2 = cluster_indels(inp, blur=B)
+            found += [('second-clustering-of-the-same-calls:' + s, 'calls=%s | %s' % (lst, d), 'cluster_indels', sig)
+                      for s, d in conservation_problems(snap, out2, n)][:1]
+        except Exception as e:
+            found.append(('second-clustering-of-the-same-calls:exception', '%s: %s' % (type(e).__name__, e), 'cluster_indels', sig))
     if acc is not None:
         acc.evals += 1
         acc.transitions += max(1, n)
@@ -173,6 +180,56 @@ def check_finder(which, bp, d1, d2, rev, acc, gq=150000):
         acc.state(('f', which, None if res is None else tuple((c[0], c[7]) for v in res.values() for c in v)))
         if any(abs(abs(diff) - t) <= 1 for t in (100, 2000, 100000)):
             acc.nontriv((which, bp, d1, d2, rev, gq))
+        for f in found:
+            acc.viol(f[0], case, f[1], f[2], f[3])
+        acc.sample(case)
+    return found
+
+
+def _describe_same_start(which, dA, dB, rev, acc=None):
+    return dict(kind='finder-same-start', finder=which, deltas=[dA, dB], reverse=rev)
+
+
+@core.guarded(_describe_same_start)
+def check_same_start(which, dA, dB, rev, acc):
+    """two molecules on ONE reference whose join points start at the same reference label and end at different ones"""
+    ref = [1000, 151000, 300000, 460000]
+    specs = ((9, (1, 2, 3), dA), (12, (1, 2, 4), dB))
+    adict, qdict, bdict, expected = {4: []}, {}, {}, {}
+    for qid, rl, d in specs:
+        rp = [ref[i - 1] for i in rl]
+        qpos = [500 + qid, 500 + qid + (rp[1] - rp[0]), 500 + qid + (rp[1] - rp[0]) + (rp[2] - rp[1]) - d]
+        pairs = [(rl[0], 1), (rl[1], 2), (rl[2], 3)] if not rev else [(rl[0], 3), (rl[1], 2), (rl[2], 1)]
+        if rev:
+            qpos = sorted(qpos[-1] + 500 - p for p in qpos)
+        ap = [BP(BPos(r, 0), BPos(q, 0)) for r, q in pairs]
+        adict[4].append(BionanoAlignment(1, qid, 4, 0, 0, 0, 0, rev, 1.0, '', 1, 1, ap))
+        qdict[qid] = _Map(qpos)
+        bdict[qid] = [1, ap[1]] if which == 'molecule' else [[1, str(ap[1])]]
+        rs, re_ = ref[pairs[1][0] - 1], ref[pairs[2][0] - 1]
+        qs, qe = qpos[pairs[1][1] - 1], qpos[pairs[2][1] - 1]
+        expected[qid] = (rs, re_, qs, qe, abs(rs - re_) - abs(qs - qe))
+    found = []
+    case = _describe_same_start(which, dA, dB, rev)
+    try:
+        mod = molecule_indels if which == 'molecule' else segment_indels
+        res = mod.look_for_indels_in_breakage(adict, {4: _Map(ref)}, qdict, bdict)
+    except Exception as e:
+        res = None
+        found.append(('finder-exception', '%s: %s' % (type(e).__name__, e), which, {}))
+    if res is not None:
+        for k, v in res.items():
+            for c in v[:6]:
+                e = expected.get(c[4])
+                if e is None:
+                    found.append(('call-for-no-join-point', str(c), which, {}))
+                elif [c[2], c[3], c[5], c[6], c[7]] != list(e):
+                    found.append(('call-coordinates', 'call %s, expected ref/query/length %s' % (c, list(e)), which, {'same_start': True}))
+    if acc is not None:
+        acc.evals += 1
+        acc.transitions += 2
+        acc.state(('ss', which, None if res is None else tuple(sorted((c[4], c[7]) for v in res.values() for c in v))))
+        acc.nontriv((which, dA, dB, rev))
         for f in found:
             acc.viol(f[0], case, f[1], f[2], f[3])
         acc.sample(case)
@@ -400,6 +457,12 @@ class Clusters(core.Layer):
                                     acc.seq += 1
                                     check_finder(which, bp, d1, d2, rev, acc, gq)
             for which in ('molecule', 'segment'):
+                for dA in (2001, -2001, 5000):
+                    for dB in (2500, -3000, 8000):
+                        for rev in (False, True):
+                            acc.seq += 1
+                            check_same_start(which, dA, dB, rev, acc)
+            for which in ('molecule', 'segment'):
                 bsets = [[0], [1]] if which == 'molecule' else [[0, 1], [1, 0], [0], [1]]
                 for bps in bsets:
                     for d1 in D2:
@@ -438,6 +501,8 @@ class Clusters(core.Layer):
             return check_cluster([tuple(x) for x in case['calls']], None)
         if case['kind'] == 'write':
             return check_write([tuple(x) for x in case['insertions']], [tuple(x) for x in case['deletions']], None, case.get('offset', 0))
+        if case['kind'] == 'finder-same-start':
+            return check_same_start(case['finder'], case['deltas'][0], case['deltas'][1], case['reverse'], None)
         if case['kind'] == 'finder-sequence':
             return check_finder_multi(case['finder'], [tuple(x) for x in case['alignments']], None, case.get('query_gap', 150000))
         return check_finder(case['finder'], case['breakpoint'], case['ref_delta'][0], case['ref_delta'][1], case['reverse'], None, case.get('query_gap', 150000))
